@@ -22,6 +22,7 @@ const (
 var (
 	AllowedAssets       = []string{"btc", "lbtc"}
 	ErrSwapDoesNotExist = errors.New("swap does not exist")
+	ErrMalformedMessage = errors.New("malformed message: missing swap id")
 )
 
 type ErrMinimumSwapSize uint64
@@ -202,6 +203,9 @@ func (s *SwapService) OnMessageReceived(peerId string, msgTypeString string, pay
 		if err != nil {
 			return err
 		}
+		if msg == nil || msg.SwapId == nil {
+			return ErrMalformedMessage
+		}
 		s.logMsg(msg.SwapId.String(), peerId, msgTypeString, payload)
 		err = s.OnSwapOutRequestReceived(msg.SwapId, peerId, msg)
 		if err != nil {
@@ -212,6 +216,9 @@ func (s *SwapService) OnMessageReceived(peerId string, msgTypeString string, pay
 		err := json.Unmarshal(msgBytes, &msg)
 		if err != nil {
 			return err
+		}
+		if msg == nil || msg.SwapId == nil {
+			return ErrMalformedMessage
 		}
 		s.logMsg(msg.SwapId.String(), peerId, msgTypeString, payload)
 		// Check if sender is expected swap partner peer.
@@ -233,6 +240,9 @@ func (s *SwapService) OnMessageReceived(peerId string, msgTypeString string, pay
 		if err != nil {
 			return err
 		}
+		if msg == nil || msg.SwapId == nil {
+			return ErrMalformedMessage
+		}
 		s.logMsg(msg.SwapId.String(), peerId, msgTypeString, payload)
 		// Check if sender is expected swap partner peer.
 		ok, err := s.isMessageSenderExpectedPeer(peerId, msg.SwapId)
@@ -252,6 +262,9 @@ func (s *SwapService) OnMessageReceived(peerId string, msgTypeString string, pay
 		err := json.Unmarshal(msgBytes, &msg)
 		if err != nil {
 			return err
+		}
+		if msg == nil || msg.SwapId == nil {
+			return ErrMalformedMessage
 		}
 		s.logMsg(msg.SwapId.String(), peerId, msgTypeString, payload)
 		// Check if sender is expected swap partner peer.
@@ -273,6 +286,9 @@ func (s *SwapService) OnMessageReceived(peerId string, msgTypeString string, pay
 		if err != nil {
 			return err
 		}
+		if msg == nil || msg.SwapId == nil {
+			return ErrMalformedMessage
+		}
 		s.logMsg(msg.SwapId.String(), peerId, msgTypeString, payload)
 		err = s.OnSwapInRequestReceived(msg.SwapId, peerId, msg)
 		if err != nil {
@@ -283,6 +299,9 @@ func (s *SwapService) OnMessageReceived(peerId string, msgTypeString string, pay
 		err := json.Unmarshal(msgBytes, &msg)
 		if err != nil {
 			return err
+		}
+		if msg == nil || msg.SwapId == nil {
+			return ErrMalformedMessage
 		}
 		s.logMsg(msg.SwapId.String(), peerId, msgTypeString, payload)
 		// Check if sender is expected swap partner peer.
@@ -303,6 +322,9 @@ func (s *SwapService) OnMessageReceived(peerId string, msgTypeString string, pay
 		err := json.Unmarshal(msgBytes, &msg)
 		if err != nil {
 			return err
+		}
+		if msg == nil || msg.SwapId == nil {
+			return ErrMalformedMessage
 		}
 		s.logMsg(msg.SwapId.String(), peerId, msgTypeString, payload)
 		// Check if sender is expected swap partner peer.
